@@ -29,12 +29,13 @@ pub fn op(seek_weight: u32) -> BoxedStrategy<Op> {
         8 => Just(Op::Next),
         3 => Just(Op::Owned),
         7 => (0u8..3).prop_map(Op::ReadSet),
-        7 => (0u8..3, prop_oneof![4 => 1u8..=3, 2 => 4u8..=7, 1 => 8u8..=20]).prop_map(|(s, n)| Op::ReadExact(s, n)),
+        7 => (0u8..3, prop_oneof![8 => 1u8..=3, 4 => 4u8..=7, 2 => 8u8..=20, 1 => 250u8..=255]).prop_map(|(s, n)| Op::ReadExact(s, n)),
         seek_weight => any::<u16>().prop_map(Op::Seek),
         seek_weight / 3 + 1 => any::<u16>().prop_map(Op::SeekSeen),
         1 => Just(Op::IntoRecords),
         1 => (0u8..3).prop_map(Op::ShrinkSet),
         1 => (0u8..3, 0u8..3).prop_map(|(a, b)| Op::CloneSet(a, b)),
+        1 => (0u8..3, 0u8..3).prop_map(|(a, b)| Op::CloneFromSet(a, b)),
         1 => gen::policy_permissive().prop_map(Op::SetPolicy),
     ]
     .boxed()
@@ -118,11 +119,11 @@ impl Prop for Histories {
     }
 }
 
-pub const RULE_C04: &str = "cases = (format, document (mostly well-formed; FASTQ also with one defect at a generated record), capacity absolute or aimed at record boundaries, permissive policy, chunk/interrupt script, history of 0..24 operations over {next, records() step, read_record_set(slot 0..2), read_record_set_exact(slot, n in 1..20), seek to a record, seek to a position reported earlier, into_records()}). Oracle: strict cursor model (exactly once, in order, content equal to the reference record, k >= 1 for plain sets, k = min(n, remaining) for exact sets, end only with nothing left, untouched slots unchanged, refilled slot = new batch only, error only after all preceding records). Exhaustive sub-check: every operation sequence of length <= 4 (thorough: 5) over an 8-operation alphabet x 6 fixed small documents x 7 capacities. Non-trivial = the history uses >= 2 read kinds, delivers >= 2 records and (switches kind right after a set read, or an exact read crosses the end, or a slot is refilled with fewer records than it held). Distinct = hash(case).";
+pub const RULE_C04: &str = "cases = (format, document (mostly well-formed; FASTQ also with one defect at a generated record), capacity absolute or aimed at record boundaries, permissive policy, chunk/interrupt script, history of 0..24 operations over {next, records() step, read_record_set(slot 0..2), read_record_set_exact(slot, n in 1..20, rarely one of u32::MAX, 2^40, isize::MAX/40+1, isize::MAX, usize::MAX/8, usize::MAX), seek to a record, seek to a position reported earlier, into_records()}). Oracle: strict cursor model (exactly once, in order, content equal to the reference record, k >= 1 for plain sets, k = min(n, remaining) for exact sets, end only with nothing left, untouched slots unchanged, refilled slot = new batch only, error only after all preceding records). Exhaustive sub-check: every operation sequence of length <= 4 (thorough: 5) over a 9-operation alphabet (incl. read_record_set_exact(usize::MAX)) x 6 fixed small documents x 7 capacities. Non-trivial = the history uses >= 2 read kinds, delivers >= 2 records and (switches kind right after a set read, or an exact read crosses the end, or a slot is refilled with fewer records than it held). Distinct = hash(case).";
 
 pub const RULE_C05: &str = "cases as for C04 but seek-heavy (about 40 % seeks), long leading blank regions, capacities smaller and larger than the distance to the target. Oracle: after next() the reported position equals the model's (line, byte) of that record; after a set read a reported position equals the coordinates of the next unread record (or of the invalid FASTQ group); after a seek the reads follow the cursor model from the target (seeking to an invalid FASTQ record reproduces its error). Exhaustive sub-check as for C04, with positions compared. Non-trivial = >= 1 seek followed by >= 1 read that returned a record. Distinct = hash(case).";
 
-/// Complete small scope: every history of length <= L over an 8-operation alphabet x fixed small documents x
+/// Complete small scope: every history of length <= L over a 9-operation alphabet x fixed small documents x
 /// capacities, checked by the same cursor model.
 fn exhaustive_histories(run: &mut Run, positions: bool, max_len: u32) {
     let docs: Vec<(Format, &'static [u8])> = vec![
@@ -133,7 +134,7 @@ fn exhaustive_histories(run: &mut Run, positions: bool, max_len: u32) {
         (Format::Fastq, b"@a\r\nAC\r\n+\r\nII\r\n@b\r\nG\r\n+\r\nI"),
         (Format::Fastq, b"@a\nAC\n+\nII\n@b\nG\n-\nI\n@c\nA\n+\nI\n"),
     ];
-    let alphabet: Vec<Op> = vec![Op::Next, Op::Owned, Op::ReadSet(0), Op::ReadSet(1), Op::ReadExact(0, 1), Op::ReadExact(1, 2), Op::Seek(0), Op::Seek(u16::MAX)];
+    let alphabet: Vec<Op> = vec![Op::Next, Op::Owned, Op::ReadSet(0), Op::ReadSet(1), Op::ReadExact(0, 1), Op::ReadExact(1, 2), Op::ReadExact(2, 255), Op::Seek(0), Op::Seek(u16::MAX)];
     let caps: Vec<usize> = vec![3, 4, 5, 7, 11, 16, 64];
     let k = alphabet.len() as u64;
     let mut total = 0u64;
@@ -198,7 +199,20 @@ pub fn run_c05(tier: Tier) -> i32 {
     run.replays("seek-position-model", &p);
     run.generated("seek-position-model", &p, tier.pick(200_000, 3_000_000));
     exhaustive_histories(&mut run, true, if tier == Tier::Quick { 4 } else { 5 });
-    run.finish(RULE_C05, &["reference model M_fa/M_fq gives the true coordinates", "seek targets are record starts (and the invalid FASTQ group) only"])
+    let l = super::large::LargeCoords { errors: false };
+    run.replays("large-coordinates", &l);
+    run.generated("large-coordinates", &l, tier.pick(300, 6_000));
+    let b = super::large::Beyond4G { errors: false, variants: if tier == Tier::Quick { &[0] } else { &[0, 0, 0, 1, 2] } };
+    run.replays("beyond-4-gib", &b);
+    // (each case reads 4..7 GB: minutes on a loaded machine; the per-case watchdog is widened for this sub-check)
+    let old_limit = std::env::var("VERIF_CASE_TIMEOUT").ok();
+    std::env::set_var("VERIF_CASE_TIMEOUT", "2400");
+    run.generated("beyond-4-gib", &b, tier.pick(2, 12));
+    match old_limit {
+        Some(v) => std::env::set_var("VERIF_CASE_TIMEOUT", v),
+        None => std::env::remove_var("VERIF_CASE_TIMEOUT"),
+    }
+    run.finish(&format!("{} {}", RULE_C05, super::large::RULE_LARGE), &["reference model M_fa/M_fq gives the true coordinates", "seek targets are record starts (and the invalid FASTQ group) only"])
 }
 
 pub fn replay_c04(run: &mut Run, file: &std::path::Path) -> Option<bool> {
@@ -208,4 +222,6 @@ pub fn replay_c04(run: &mut Run, file: &std::path::Path) -> Option<bool> {
 pub fn replay_c05(run: &mut Run, file: &std::path::Path) -> Option<bool> {
     run.replay_file("seek-position-model", &Histories { seek_weight: 24, positions: true }, file, true)
         .or_else(|| run.replay_file("exhaustive-short-histories-positions", &Histories { seek_weight: 24, positions: true }, file, true))
+        .or_else(|| run.replay_file("large-coordinates", &super::large::LargeCoords { errors: false }, file, true))
+        .or_else(|| run.replay_file("beyond-4-gib", &super::large::Beyond4G { errors: false, variants: &[0] }, file, true))
 }
